@@ -40,17 +40,23 @@ def handleVerdict (line : String) : String :=
       let arrErr := arrangeErrAt.toInt?.getD (-1)
       -- a fault in the trap function is a fault of the run (the Go wrapper panics, RunExt recovers)
       -- (`long`, `longmark`: a driver that reaches its BRK after about 27 million clock cycles)
-      let runOk := bin == "brk" || bin == "trapok" || bin == "long" || bin == "longmark"
+      -- `ca65ok`, `ca65asmfail`, `ca65linkfail` (each possibly with `.stale`): the case went through the two step tool chain
+      -- of AsmType ca65; both steps worked / the assembler step failed / the link step failed.  `.stale`: the binary of an
+      -- earlier successful build of the driver was still in the binary directory.  Assembling the driver faults when either
+      -- step fails, whatever is lying around in the binary directory.
+      let ca65Ok := bin == "ca65ok" || bin == "ca65ok.stale"
+      let asmOk := bin != "asmfail" && (!bin.startsWith "ca65" || ca65Ok)
+      let runOk := bin == "brk" || bin == "trapok" || bin == "long" || bin == "longmark" || ca65Ok
       -- the script increments `iter` in assert(): iteration i (0-based) sees iter == i in arrange and uses assertion i
       let iters := fun (i : Nat) =>
         let a := asserts.getD i "true"
         ({ arrangeOk := decide ((i : Int) ≠ arrErr), runOk := runOk, assertOk := a != "raise", assertTrue := assertTrueOf a } : Iter)
-      let out := execute (bin != "asmfail") (bin != "short" && bin != "toobig") (broken == "0") (numItersOf ni) iters
+      let out := execute asmOk (bin != "short" && bin != "toobig") (broken == "0") (numItersOf ni) iters
       let model := if out.ok then "ok" else "fail"
       let d := if model == res.trim then "agree" else s!"DIFF verdict:model={model}"
       -- the property, directly: OK only if the driver ran at least once to its BRK and every assert made returned true
       let n := iterCount (numItersOf ni)
-      let shouldFail := !runOk || broken != "0" || n == 0 ||
+      let shouldFail := !asmOk || !runOk || broken != "0" || n == 0 ||
         -- (assertions beyond the listed ones return true and arrange faults only in the first three iterations)
         (List.range (min n (asserts.length + 1))).any (fun i => !(assertTrueOf (asserts.getD i "true")) || (i : Int) == arrErr)
       let v := if res.trim == "hostcrash" then "VIOL C09:hostcrash"
